@@ -185,3 +185,52 @@ Proof.
   destruct (zsubset (firstn (length qubits) declared) (map fst qubits)) eqn:B; simpl; eauto.
   exfalso. apply H. split; now apply zsubset_incl.
 Qed.
+
+(** *** T8. find_indices accepts exactly the lists of declared ids - a list
+    mentioning EVERY declared id included - and returns for each id its
+    position in the declared order; together with [mappable_resolve] an index
+    obtained this way denotes the same id in every built register that
+    contains it. *)
+Lemma zindex_spec : forall l x i, zindex l x = Some i ->
+    0 <= i /\ nth_error l (Z.to_nat i) = Some x.
+Proof.
+  induction l as [|y l IH]; simpl; intros x i H; [discriminate|].
+  destruct (y =? x) eqn:E.
+  - inversion H; subst. apply Z.eqb_eq in E. subst. split; [lia|reflexivity].
+  - destruct (zindex l x) as [j|] eqn:Z0; [|discriminate]. inversion H; subst.
+    destruct (IH x j Z0) as [Hj Hn]. split; [lia|].
+    replace (Z.to_nat (j + 1)) with (S (Z.to_nat j)) by lia. exact Hn.
+Qed.
+
+Lemma zindex_in : forall l x, In x l -> exists i, zindex l x = Some i.
+Proof.
+  induction l as [|y l IH]; simpl; intros x I; [contradiction|].
+  destruct (y =? x) eqn:E; eauto.
+  destruct I as [I|I]; [apply Z.eqb_neq in E; congruence|].
+  destruct (IH x I) as [i ->]. eauto.
+Qed.
+
+Theorem find_indices_spec : forall declared ids,
+    (incl ids declared ->
+     exists idx, find_indices declared ids = Ok idx /\ length idx = length ids /\
+       forall k id, nth_error ids k = Some id ->
+         exists i, nth_error idx k = Some i /\ 0 <= i /\ nth_error declared (Z.to_nat i) = Some id) /\
+    (~ incl ids declared -> find_indices declared ids = Err EValue).
+Proof.
+  intros declared ids. unfold find_indices. split.
+  - intros I. rewrite (proj2 (zsubset_incl ids declared) I). simpl.
+    induction ids as [|x ids IH]; simpl.
+    + exists []. repeat split; auto. intros [|k] id H; discriminate.
+    + destruct (zindex_in declared x (I x (or_introl eq_refl))) as [i Zi]. rewrite Zi.
+      destruct IH as [idx [E [L S]]]; [intros y Hy; apply I; now right|].
+      rewrite E. exists (i :: idx). repeat split; simpl; auto.
+      intros [|k] id H; simpl in *.
+      * inversion H; subst. exists i. destruct (zindex_spec _ _ _ Zi). auto.
+      * apply S. exact H.
+  - intros N. destruct (zsubset ids declared) eqn:Z0; simpl; auto.
+    exfalso. apply N. now apply zsubset_incl.
+Qed.
+
+Example find_indices_all_declared :
+  find_indices [7; 3; 9] [9; 7; 3; 9] = Ok [2; 0; 1; 2] /\ find_indices [5] [5] = Ok [0].
+Proof. vm_compute. split; reflexivity. Qed.
